@@ -599,7 +599,7 @@ func genCase(r *rand.Rand) (Case, chooser) {
 			if g.UsesOverdraftFn && r.IntN(2) == 0 {
 				t.Flags = nil
 			} else {
-				t.Flags = append(t.Flags, "unrelated-flag")
+				t.Flags = append(t.Flags, []string{"unrelated-flag", "Unrelated-Flag", " padded flag ", "EXPERIMENTAL-SOMETHING"}[r.IntN(4)])
 			}
 		}
 		if len(t.Flags) == 0 && r.IntN(3) == 0 {
